@@ -3,6 +3,7 @@ package c07
 
 import (
 	"bytes"
+	"crypto/sha256"
 	"encoding/pem"
 	"fmt"
 	"testing"
@@ -195,6 +196,34 @@ func checkStream(stream []byte) (signature.SignatureDatabase, []esl.List, error)
 	}
 	if !bytes.Equal(db2.Bytes(), stream) {
 		return nil, nil, fmt.Errorf("Unmarshal+Bytes does not reproduce the input once the source buffer has been reused (the decoded database shares memory with its input)")
+	}
+	// encodings are values of their own: they stay what they are while other databases, lists and entries are encoded
+	keepDB := db.Bytes()
+	var keepList, keepEntry, wantList, wantEntry []byte
+	if len(db) > 0 {
+		keepList, wantList = db[0].Bytes(), esl.Encode(want[:1])
+		if len(db[0].Signatures) > 0 {
+			keepEntry = db[0].Signatures[0].Bytes()
+			wantEntry = append(append([]byte{}, want[0].Entries[0].Owner.Wire()...), want[0].Entries[0].Data...)
+		}
+	}
+	other := signature.SignatureDatabase{}
+	for i := 0; i < 3; i++ {
+		h := sha256.Sum256([]byte{byte(i), byte(len(stream))})
+		if err := other.Append(signature.CERT_SHA256_GUID, util.EFIGUID{Data1: uint32(i + 1)}, h[:]); err != nil {
+			return nil, nil, fmt.Errorf("bad case: building the other database: %v", err)
+		}
+	}
+	_ = other.Append(signature.CERT_X509_GUID, util.EFIGUID{Data1: 9}, bytes.Repeat([]byte{0x5a}, 1+len(stream)%97))
+	_ = other.Bytes()
+	for _, l := range other {
+		_ = l.Bytes()
+		for j := range l.Signatures {
+			_ = l.Signatures[j].Bytes()
+		}
+	}
+	if !bytes.Equal(keepDB, stream) || !bytes.Equal(keepList, wantList) || !bytes.Equal(keepEntry, wantEntry) {
+		return nil, nil, fmt.Errorf("the result of Bytes() (database, first list or first entry) changed after another database, its lists and entries were encoded: the results share memory")
 	}
 	// Unmarshal defines the receiver: what a database value held before (the same stream, or another database)
 	// is not part of what the stream decodes to
